@@ -339,7 +339,7 @@ pub fn c05(tier: Tier) -> i32 {
                 for k in 0..t {
                     let mut env = env0.clone();
                     env.fault = Some(Fault { at: k, kind: FaultKind::Other });
-                    let mut alphabet = vec![Op::N, Op::SA, Op::E(1), Op::E(2)];
+                    let mut alphabet = vec![Op::N, Op::SA, Op::E(1), Op::E(2), Op::P];
                     for i in 0..nrec.min(3) {
                         alphabet.push(Op::K(i as u8));
                     }
@@ -358,7 +358,7 @@ pub fn c05(tier: Tier) -> i32 {
         prop: "C05",
         tier,
         state_cap: if tier == Tier::Quick { 3000 } else { 60000 },
-        rule: format!("(a) {} ; (b) explicit-state BFS to fixpoint over {{next, read_record_set, read_record_set_exact(2), set_policy (reader rebuilt around its state), seek(position of record i) for EVERY record i and for the invalid FASTQ record}} from every reachable reader state (New, Parsing, Incomplete/Positioned with partial search state, Finished after end / after a parse error), {} scenarios (input x capacity x chunking) so that both the in-buffer shortcut and the real source seek are taken (counted in seeks_in_buffer / seeks_through_source); oracle: after seek(i) all reads behave as the reference stream from record i, position() after next() and after set reads = reference coordinates; the same under a never-growing policy at capacities that hold every record (no growth request, no BufferLimit after a seek); (c) {} scenarios with one source failure (read or seek) at every source call index and histories over {{next, read_record_set, exact(1), exact(2), seeks}} continued past the error: every record returned afterwards is genuine and position() is its true location, and seeks keep landing on the right record", a_rule, n, n_c),
+        rule: format!("(a) {} ; (b) explicit-state BFS to fixpoint over {{next, read_record_set, read_record_set_exact(2), set_policy (reader rebuilt around its state), seek(position of record i) for EVERY record i and for the invalid FASTQ record}} from every reachable reader state (New, Parsing, Incomplete/Positioned with partial search state, Finished after end / after a parse error), {} scenarios (input x capacity x chunking) so that both the in-buffer shortcut and the real source seek are taken (counted in seeks_in_buffer / seeks_through_source); oracle: after seek(i) all reads behave as the reference stream from record i, position() after next() and after set reads = reference coordinates; the same under a never-growing policy at capacities that hold every record (no growth request, no BufferLimit after a seek); (c) {} scenarios with one source failure (read or seek) at every source call index and histories over {{next, read_record_set, exact(1), exact(2), set_policy, seeks}} continued past the error: every record returned afterwards is genuine and position() is its true location, and seeks keep landing on the right record", a_rule, n, n_c),
         scenarios,
         plain_depth: if tier == Tier::Quick { 4 } else { 5 },
         plain_every: 40,
@@ -701,6 +701,14 @@ pub fn c14(tier: Tier) -> i32 {
                             n_fault += 1;
                         }
                     }
+                    // many interrupted reads within ONE refill: one byte per read, an interrupt before each,
+                    // a buffer that takes the whole input
+                    if chunk == Chunk::All && cap > data.len() {
+                        let mut env = env0.clone();
+                        env.chunk = Chunk::Fixed(1);
+                        env.int = IntPat::EveryOther;
+                        scenarios.push(Scenario { data: data.clone(), env, alphabet: alphabet.clone(), positions: true, iterate_failed_sets: false, policy_clauses: false, explore_post: false, strict_after_buffer_limit: false, post_err_fields: false });
+                    }
                     // interrupted reads: before every read; every subset of <= 2 of the first 6 read calls
                     if chunk == Chunk::All {
                         let mut pats = vec![IntPat::EveryOther];
@@ -725,7 +733,7 @@ pub fn c14(tier: Tier) -> i32 {
         prop: "C14",
         tier,
         state_cap: if tier == Tier::Quick { 3000 } else { 60000 },
-        rule: format!("explicit-state BFS over {{next, read_record_set, exact(2), seek(record 0), seek(record 1)}}: {} scenarios = (input, capacity, chunking) x a one-shot failure of the k-th source call for EVERY k up to the number of calls of a full read + 3 (reads and seeks share one index) x error kinds {{Other, TimedOut, UnexpectedEof, InvalidData; Interrupted on seeks}}; oracle: the API call during which the source failed returns Err(Io) with exactly that kind (not end of input, not a parse error, not a record), everything before follows the reference stream; {} scenarios with Interrupted before every read / before every subset of <= 2 of the first 6 reads and the strict reference oracle incl. positions (interrupted reads invisible); exploration stops at the failing call (the post-error regime belongs to C06)", n_fault, n_int),
+        rule: format!("explicit-state BFS over {{next, read_record_set, exact(2), seek(record 0), seek(record 1)}}: {} scenarios = (input, capacity, chunking) x a one-shot failure of the k-th source call for EVERY k up to the number of calls of a full read + 3 (reads and seeks share one index) x error kinds {{Other, TimedOut, UnexpectedEof, InvalidData; Interrupted on seeks}}; oracle: the API call during which the source failed returns Err(Io) with exactly that kind (not end of input, not a parse error, not a record), everything before follows the reference stream; {} scenarios with Interrupted before every read (also with one-byte reads into a buffer that takes the whole input: as many interrupts in one refill as the input has bytes) / before every subset of <= 2 of the first 6 reads and the strict reference oracle incl. positions (interrupted reads invisible); exploration stops at the failing call (the post-error regime belongs to C06)", n_fault, n_int),
         scenarios,
         plain_depth: 0,
         plain_every: 1,
